@@ -39,6 +39,12 @@ fn main() {
         let to: u64 = args[6].parse().unwrap_or_else(|_| usage());
         std::process::exit(coord::worker_main(check, tier, seed, &args[4], from, to));
     }
+    if args[0] == "--dump" {
+        let text = std::fs::read_to_string(&args[1]).unwrap();
+        let v: serde_json::Value = serde_json::from_str(&text).unwrap();
+        checks::common::dump_case(&v["case"]);
+        return;
+    }
     if args[0] == "--child" {
         // child-process scenarios used by process-level checks (C12, C14, C20)
         std::process::exit(checks::child_main(&args[1..]));
